@@ -54,6 +54,11 @@ def job_line(r):
         return "I %s %d %s %d" % (j["arch"], int(j["enc"]), off32(j["off"]), RET[res["ret"]])
     if k == "D":
         return "D %d %d %s %s" % (j["dist"], int(j["enc"]), hx(res["data"]), hx(res["expect"]))
+    if k == "R":
+        parts = ["R", j["arch"], str(int(j["enc"])), str(len(res["subs"]))]
+        for sb in res["subs"]:
+            parts += [off32(sb["off"]), str(sb["dist"]), hx(sb["data"]), str(sb["feed"]), hx(sb["expect"])]
+        return " ".join(parts)
     if k == "J":
         return "J %d %d %d" % (j["type"], j["dist"], RET[res["ret"]])
     raise MachineryError("unknown job kind %r" % k)
@@ -221,13 +226,13 @@ def run(ctx):
 
     def describe(i):
         j = recs[i]["job"]
-        if j["kind"] in ("D", "J"):
+        if j["kind"] in ("D", "J") or j.get("arch") == "delta":
             return "delta", recs[i]
         return j["arch"], recs[i]
     info1 = run_driver(ctx, lines, describe, "transforms")
     sysinfo = system_library_opinion(ctx, lines, recs, set(info1["_mismatch_lines"]) if info1 else set())
     for r in recs:
-        ctx.case(key=json.dumps(r["job"], sort_keys=True), nontrivial=r["job"]["kind"] in ("S", "O", "D"))
+        ctx.case(key=json.dumps(r["job"], sort_keys=True), nontrivial=r["job"]["kind"] in ("S", "O", "D", "R"))
     ctx.add_traces(len(recs))
     pick = [r for r in recs if r["job"]["kind"] == "S" and r["job"]["arch"] == "x86" and "pair" in r["job"] and r["job"]["pair"][0] == 2]
     if pick:
